@@ -133,7 +133,7 @@ def call_closure(ev, st, clo, args, depth):
         return ev.invoke(st, ctx)
     if not isinstance(clo, ClosureV):
         raise Unsupported("call of non-closure %r" % (clo,))
-    key = body_for_def(ev, clo.defpath)
+    key = clo.key if clo.key in ev.bodies else body_for_def(ev, clo.defpath)
     if key is None:
         raise Unsupported("no body for closure %s" % clo.defpath)
     body = ev.bodies[key]
@@ -860,7 +860,7 @@ _INT = r"&?(?:'\w+ )?[iu](8|16|32|64|128|size)"
 
 
 def _ref_op(tr, m):
-    return "re:<%s as core::ops::%s<%s>>::%s" % (_INT, tr, _INT, m)
+    return "re:<%s as core::ops::%s(?:<%s>)?>::%s" % (_INT, tr, _INT, m)
 
 
 def _signed_callee(ctx):
@@ -908,6 +908,27 @@ def _ref_shift(left):
 
 prim(_ref_op("Shl", "shl"))(_ref_shift(True))
 prim(_ref_op("Shr", "shr"))(_ref_shift(False))
+
+
+def _assign_op(h):
+    """`a op= b` on integers through the operator trait (generic code instantiated at an integer type)"""
+    def g(ev, st, ctx):
+        dst = ctx.args[0]
+        if not isinstance(dst, Ref):
+            raise Unsupported("compound assignment to %r" % (dst,))
+        inner = CallCtx(ctx.callee, [deref(ev, st, dst), ctx.args[1]], ctx.argtys, ctx.dest_ty, ctx.span, ctx.fr)
+        ev.store(st, dst, h(ev, st, inner))
+        return UNIT
+    return g
+
+
+for _tr, _m, _fn in (("BitXorAssign", "bitxor_assign", T.xor), ("BitAndAssign", "bitand_assign", T.band), ("BitOrAssign", "bitor_assign", T.bor)):
+    prim(_ref_op(_tr, _m))(_assign_op((lambda fn_: (lambda ev, st, ctx: fn_(_argT(ev, st, ctx.args[0]), _argT(ev, st, ctx.args[1]))))(_fn)))
+prim(_ref_op("AddAssign", "add_assign"))(_assign_op(_ref_arith("Add", T.add)))
+prim(_ref_op("SubAssign", "sub_assign"))(_assign_op(_ref_arith("Sub", T.sub)))
+prim(_ref_op("MulAssign", "mul_assign"))(_assign_op(_ref_arith("Mul", T.mul)))
+prim(_ref_op("ShlAssign", "shl_assign"))(_assign_op(_ref_shift(True)))
+prim(_ref_op("ShrAssign", "shr_assign"))(_assign_op(_ref_shift(False)))
 
 
 @prim("re:<&?(?:'\\w+ )?[iu](8|16|32|64|128|size) as core::ops::Not>::not")
@@ -1025,6 +1046,27 @@ def p_arr_clone(ev, st, ctx):
       "core::convert::<impl core::convert::AsMut<[T]> for [T]>::as_mut")
 def p_as_slice(ev, st, ctx):
     return as_slice(ev, st, ctx.args[0])
+
+
+@prim("core::array::<impl [T; N]>::map")
+def p_arr_map(ev, st, ctx):
+    a, f = ctx.args
+    if not isinstance(a, ArrV) or a.n > 4096:
+        raise Unsupported("array map of %r" % (a,))
+    t = ev.tys[ctx.dest_ty]
+    ew = ev.scalar_width(ev.strip_newtypes(t["elem"]))
+    return ArrV(a.n, ew, None, None, {i: call_closure(ev, st, f, [a.get(i)], ctx.fr.depth) for i in range(a.n)})
+
+
+@prim("core::array::from_fn")
+def p_arr_from_fn(ev, st, ctx):
+    t = ev.tys[ctx.dest_ty]
+    n = t["len"]
+    if n is None or n > 4096:
+        raise Unsupported("array::from_fn of length %r" % (n,))
+    ew = ev.scalar_width(ev.strip_newtypes(t["elem"]))
+    f = ctx.args[0]
+    return ArrV(n, ew, None, None, {i: call_closure(ev, st, f, [T.const(i, 64)], ctx.fr.depth) for i in range(n)})
 
 
 @prim("re:core::array::<impl core::default::Default for \\[T; .*\\]>::default")
